@@ -409,6 +409,8 @@ def exhaustive(tier):
     for t in small_trees(1 if tier == 'quick' else 2):
         yield dict(tree=t, dates=DATES12)
 
+FUZZ = [('trees', 6000), ('search', 3000)]       # thorough tier: coverage-guided sub-run (vf/fuzz.py), runs per process x 16 processes
+
 
 def streams(tier):
     return [Stream('trees', check_tree, strategy=tree_case, examples={'quick': 6000, 'thorough': 120000}),
